@@ -44,7 +44,9 @@ RULE = ("generated stack shapes of depth 1-6: each position a recorder layer cla
         "from the class of an earlier recorder (lookups are by exact class); one data "
         "transfer in each direction and one event per case with emitter = any layer, any group member or the stack object, "
         "direction emit/broadcast, detached or not. Enumerated: the 16 flag combinations of getDefaultLayers/getProtocolLayers and "
-        "the 64 combinations of getDefaultStack (32 flag combinations x extra top layer). Non-trivial = a group of >= 2 members "
+        "the 64 combinations of getDefaultStack (32 flag combinations x extra top layer), and 256 pairs of default stacks assembled one "
+        "after the other (16 x 16 flag combinations, through getDefaultStack / getDefaultLayers / the builder) with an event sent up "
+        "and one broadcast down in each of the two afterwards. Non-trivial = a group of >= 2 members "
         "with the emitter or a consumer not at an end of the stack, or a detached event; helper combinations are non-trivial "
         "when not all-default. Distinct = distinct canonical JSON.")
 ASSUMPTIONS = [
@@ -468,7 +470,82 @@ OPTIONAL = {"groups": YowGroupsProtocolLayer, "media": YowMediaProtocolLayer, "p
 
 
 class ExtraTop(YowLayer):
-    pass
+    def __init__(self):
+        super(ExtraTop, self).__init__()
+        self.seen = []
+
+    def onEvent(self, ev):
+        self.seen.append(ev.getName())
+        return False
+
+
+def _layers_of(stack):
+    layers = []
+    i = 0
+    while True:
+        try:
+            layers.append(stack.getLayer(i))
+        except IndexError:
+            return layers
+        i += 1
+
+
+def _build_default(how, flags):
+    if how == "default_stack":
+        return YowStackBuilder.getDefaultStack(layer=ExtraTop, axolotl=True, **flags)
+    if how == "default_layers":
+        return YowStack(YowStackBuilder.getDefaultLayers(**flags) + (ExtraTop,), reversed=False)
+    return YowStackBuilder().pushDefaultLayers().push(ExtraTop).build()
+
+
+def _two_stacks(case, out):
+    """a stack keeps working after further stacks have been assembled in the same process"""
+    f1 = {k: bool(case["flags"].get(k, True)) for k in OPTIONAL}
+    f2 = {k: bool(case["flags2"].get(k, True)) for k in OPTIONAL}
+    out.label("helper=two_stacks", "first=" + case["how"], "second=" + case["how2"])
+    out.info = {"nt": True}
+    try:
+        a = _build_default(case["how"], f1)
+        b = _build_default(case["how2"], f2)
+        stacks = {"first": a, "second": b}
+        seen_below = {}
+        for name, stk in stacks.items():
+            layers = _layers_of(stk)
+            _check_default_layout(out, layers, {k: True for k in OPTIONAL} if (case["how"] if name == "first" else case["how2"]) == "builder"
+                                  else (f1 if name == "first" else f2), "two_stacks:" + name, extra=True)
+            if out.violations:
+                return out
+            members = []
+            for l in layers:
+                members.append(l)
+                members.extend(getattr(l, "sublayers", ()))
+            for l in members:
+                if l.getStack() is not stk:
+                    out.fail("helpers", "helpers:two_stacks:layer_of_%s_stack_belongs_to_another_stack" % name, {"layer": str(l)})
+                    return out
+            rec = []
+            seen_below[name] = rec
+            net = layers[0]
+            orig = net.onEvent
+            net.onEvent = (lambda ev, _r=rec, _o=orig: (_r.append(ev.getName()), _o(ev))[1])
+        for name, stk in stacks.items():
+            other = "second" if name == "first" else "first"
+            top, otop = _layers_of(stk)[-1], _layers_of(stacks[other])[-1]
+            del top.seen[:], otop.seen[:]
+            _layers_of(stk)[0].emitEvent(YowLayerEvent(EV + "." + name + ".up"))
+            if top.seen != [EV + "." + name + ".up"] or otop.seen:
+                out.fail("helpers", "helpers:two_stacks:event_from_bottom_of_%s_stack" % name,
+                         {"top_of_its_stack_saw": list(top.seen), "top_of_the_other_stack_saw": list(otop.seen)})
+                return out
+            del seen_below["first"][:], seen_below["second"][:]
+            top.broadcastEvent(YowLayerEvent(EV + "." + name + ".down"))
+            if seen_below[name] != [EV + "." + name + ".down"] or seen_below[other]:
+                out.fail("helpers", "helpers:two_stacks:broadcast_from_top_of_%s_stack" % name,
+                         {"bottom_of_its_stack_saw": list(seen_below[name]), "bottom_of_the_other_stack_saw": list(seen_below[other])})
+                return out
+    except Exception as e:
+        out.fail("helpers", "helpers:two_stacks:raises:%s" % type(e).__name__, {"error": repr(e)[:300]})
+    return out
 
 
 def _expect_protocol(flags):
@@ -510,6 +587,8 @@ def _check_default_layout(out, layers, flags, what, extra=False):
 
 
 def _helpers(case, out):
+    if case["which"] == "two_stacks":
+        return _two_stacks(case, out)
     flags = {k: bool(case["flags"].get(k, True)) for k in OPTIONAL}
     which = case["which"]
     out.label("helper=" + which)
@@ -581,6 +660,13 @@ def _enum_helpers():
         for axolotl in (False, True):
             for extra in (False, True):
                 yield {"sub": "helpers", "which": "stack", "flags": flags, "axolotl": axolotl, "extra": extra}
+    hows = ["default_stack", "default_layers", "builder"]
+    n = 0
+    for bits in itertools.product([True, False], repeat=4):
+        for bits2 in itertools.product([True, False], repeat=4):
+            n += 1
+            yield {"sub": "helpers", "which": "two_stacks", "flags": dict(zip(["groups", "media", "privacy", "profiles"], bits)),
+                   "flags2": dict(zip(["groups", "media", "privacy", "profiles"], bits2)), "how": hows[n % 3], "how2": hows[(n // 3) % 3]}
 
 
 def shape_strategy():
